@@ -61,6 +61,7 @@ def _case(draw, unit):
             size[1] = max(size[1], dwtu.even_up(L2) * 2 ** (J - 1))
     case = {'dim': dim, 'direction': direction, 'wave': w, 'wave_row': w2, 'mode': mode, 'J': J, 'size': size,
             'N': draw(st.sampled_from([1, 2])), 'C': draw(st.sampled_from([1, 2])),
+            'reused': draw(st.integers(0, 3)) == 0,
             'rx': draw(core.recipe_strategy()), 'rg': draw(core.recipe_strategy()), 'k': draw(st.integers(0, 10**6))}
     if direction == 'synthesis':
         names = ['low'] + list(range(J))
@@ -74,6 +75,9 @@ def _case(draw, unit):
         else:
             sub = [n for n in names if draw(st.booleans())] or [names[draw(st.integers(0, J))]]
         case['grad'] = sub
+        case['zero_valued'] = [n_ for n_ in names if draw(st.integers(0, 3)) == 0]
+    else:
+        case['zero_input'] = draw(st.integers(0, 5)) == 0
     return case
 
 
@@ -216,7 +220,18 @@ def _analysis(case, r, per_axis):
     d2b = mode == 'periodization' and any(n % 2 for ns, _ in per_axis for n in ns)
     r.label('in_D2_predicate' if (d2a or d2b) else None, 'in_D1_predicate' if in_d1 else None)
     r.nontrivial = J >= 2 or any(n % 2 for n in size) or mode != 'zero'
-    fwd = (DWT1DForward if dim == 1 else DWTForward)(J=J, wave=_wave_arg(case, 'dec'), mode=mode)
+    cls = DWT1DForward if dim == 1 else DWTForward
+    sib = dwtu.sibling(w) if (case.get('reused') and not case.get('wave_row')) else None
+    if sib is None:
+        fwd = cls(J=J, wave=_wave_arg(case, 'dec'), mode=mode)
+    else:
+        r.label('reused_module')
+
+        def warm(m):
+            xw = torch.ones([1, 1] + [max(size) + 2 * max(Ls)] * dim, requires_grad=True)
+            yl_, yh_ = m(xw)
+            (yl_.sum() + sum(h.sum() for h in yh_)).backward()
+        fwd = dwtu.reused_module(lambda: cls(J=J, wave=w, mode=mode), lambda: cls(J=J, wave=sib, mode=mode), warm)
     n_in = int(np.prod(size))
     with torch.no_grad():
         ok, out = lib(fwd, torch.tensor(dwtu.basis(size)[:, None]))
@@ -233,6 +248,9 @@ def _analysis(case, r, per_axis):
     r.label('full_jacobian' if full else 'jacobian_row_subset')
     K = Cg.shape[0]
     x0 = core.make(case['rx'], [1, 1] + size)
+    if case.get('zero_input'):
+        x0 = np.zeros_like(x0)
+        r.label('zero_valued_input')
     X = torch.tensor(np.repeat(x0, K, axis=0), requires_grad=True)
     o2 = core.libcall(fwd, X)
     F = _flat([o2[0]] + list(o2[1]))
@@ -297,7 +315,19 @@ def _synthesis(case, r, per_axis):
             'proper_grad_subset' if len(sub) < J + 1 else None,
             'low_without_grad' if 'low' not in sub else None)
     r.nontrivial = len(sub) < J + 1 or J >= 2 or any(n % 2 for n in size) or mode != 'zero'
-    inv = (DWT1DInverse if dim == 1 else DWTInverse)(wave=_wave_arg(case, 'rec'), mode=mode)
+    cls = DWT1DInverse if dim == 1 else DWTInverse
+    sib = dwtu.sibling(w) if (case.get('reused') and not case.get('wave_row')) else None
+    if sib is None:
+        inv = cls(wave=_wave_arg(case, 'rec'), mode=mode)
+    else:
+        r.label('reused_module')
+
+        def warm(m):
+            k_ = 2 * Ls[0] + 2
+            yl_ = torch.ones([1, 1] + [k_] * dim, requires_grad=True)
+            yh_ = torch.ones([1, 1] + ([k_] if dim == 1 else [3, k_, k_]), requires_grad=True)
+            m((yl_, [yh_])).sum().backward()
+        inv = dwtu.reused_module(lambda: cls(wave=w, mode=mode), lambda: cls(wave=sib, mode=mode), warm)
     if dim == 1:
         lo_shape, hi_shapes = dwtu.pyr_shapes(size, Ls[0], mode, J)
     else:
@@ -333,6 +363,9 @@ def _synthesis(case, r, per_axis):
     r.label('full_jacobian' if full else 'jacobian_row_subset')
     K = Cg.shape[0]
     p0 = {k: core.make({**case['rx'], 'seed': case['rx']['seed'] + i}, (1,) + shapes[k]) for i, k in enumerate(names)}
+    for k in case.get('zero_valued', []):
+        p0[k] = np.zeros_like(p0[k])
+    r.label('zero_valued_level' if case.get('zero_valued') else None)
     low, highs, ts = build({k: np.repeat(p0[k], K, axis=0) for k in names}, sub)
     y = core.libcall(inv, (low, highs))
     ok, G = lib(torch.autograd.grad, y.reshape(K, -1), [ts[k] for k in sub], torch.tensor(Cg), allow_unused=True)
